@@ -1929,3 +1929,6 @@ m("C10", "wrapper-swallows-context", ZT,
 m("C12", "bases-not-linearisable", "utils.py",
   "        bases = (base, ) if issubclass(base, cls) else (cls, base)\n",
   "        bases = (cls, base)\n")
+m("C03", "lookahead-class-letters", "parser.py",
+  r"""    r'(?P<simple_value>(?![ \n\t\r]*=)))',""",
+  r"""    r'(?P<simple_value>(?![ \\n\\t\\r]*=)))',""")
